@@ -4,25 +4,31 @@ from vlib import std, hbuild, coq, common
 
 PID = "C38"
 META = {
-    "text": "Theorems (Properties_C38.v, closed under the global context) about a line-by-line Gallina model of "
-            "ProxyProtocol::Parse (v1 line isolator with the 107-byte rule, v1 field parsers, v2 via BinaryTokenizer, "
-            "TLV loop, Header::addressFamily/getValues): for ALL inputs, a definitive outcome (parsed header + size, or "
-            "rejection) of a prefix is the outcome of every extension, so only 'need more' can change; the size of a "
-            "parsed header lies within the prefix that produced it; decode(encode(fields)) = fields with consumed = "
-            "header length for all well-formed v1 TCP4/TCP6/UNKNOWN and v2 (INET/INET6/UNIX/UNSPEC, PROXY/LOCAL, any "
-            "TLV list) headers followed by arbitrary bytes; oversized v1 lines, ports > 65535 or non-numeric, family "
-            "mismatches, bad v2 version/command/family/protocol, short v2 address blocks and non-magic inputs are "
-            "rejected. Two deviations of the real code are proved as _refuted theorems and reproduced on the "
-            "implementation (known findings): bytes after the v1 destination port are ignored, and v1 TCP6 lines "
-            "carrying v4-mapped IPv6 addresses are rejected. The model is tied to the code by regenerated constants "
-            "(magic strings, enumerators, HEXDIG/CR sets, in_addr sizes) and by differential runs of the extracted "
-            "model against src/proxyp/*.cc and src/parser/BinaryTokenizer.cc compiled from the working tree (UBSan) "
-            "on every prefix of generated and mutated headers.",
+    "text": "28 theorems (Properties_C38.v, all closed under the global context) about a line-by-line Gallina model of "
+            "ProxyProtocol::Parse (magic dispatch, v1 line isolator with the 107-byte rule, v1 field parsers through the "
+            "Tokenizer int64/prefix models, v2 via BinaryTokenizer, TLV loop, Header::addressFamily/getValues): for ALL "
+            "inputs and ANY IP text conversion, a definitive outcome (parsed header + size, or rejection) of a prefix is "
+            "the outcome of every extension, so only 'need more' can change, and the consumed size lies within the prefix; "
+            "decode(encode(fields)) = fields with consumed = header length for all well-formed v1 TCP4/TCP6/UNKNOWN lines "
+            "(ports as arbitrary digit strings <= 65535, and as canonical decimals by a sweep over all 65536 ports) and "
+            "all v2 headers (INET/INET6/UNIX/UNSPEC, PROXY/LOCAL, STREAM/DGRAM, any TLV list) followed by arbitrary "
+            "bytes; oversized v1 lines, ports > 65535 of ANY digit count or non-numeric, family mismatches, bad v2 "
+            "version/command/family/protocol, short v2 address blocks and 12+ non-magic bytes are rejected. Two "
+            "deviations of the real code are proved as _refuted theorems and reproduced on the implementation (known "
+            "findings): bytes after the v1 destination port are ignored, and well-formed v1 TCP6 lines carrying "
+            "v4-mapped IPv6 addresses are rejected (hence C38_v1_tcp_roundtrip_partial). The model is tied to the code "
+            "by regenerated constants (magic strings, enumerators, HEXDIG/CR sets, in_addr sizes) and by differential "
+            "runs of the extracted model against src/proxyp/*.cc, src/parser/BinaryTokenizer.cc and Tokenizer.cc "
+            "compiled from the working tree (UBSan) on every prefix of generated and mutated headers; an independent "
+            "strict reference decoder of the PROXY specification is the oracle on the implementation's answers.",
     "note": "IP text conversion (Ip::Address::GetHostByName -> getaddrinfo) is not modelled: it is a Section variable "
             "of the model; for correspondence its answers are obtained from the real function through the harness "
             "('ip' entry) and passed to the extracted model with each case. Trusted: Coq kernel, extraction, "
             "gen/gen_proxyp.cc, harness/h_proxyp.cc; the hand-written ProxypModel.v is validated against the code only "
-            "on the generated cases. Rejection reasons (exception texts) are not compared, only the fact of rejection.",
+            "on the generated cases. Rejection reasons (exception texts) are not compared, only the fact of rejection. "
+            "Observation outside the model: One::ExtractIp calls GetHostByName without AI_NUMERICHOST, so a v1 address "
+            "field made of hex letters and dots (e.g. abc.de) makes the parser issue blocking DNS queries (seen with "
+            "strace); in this sandbox they fail at once and the line is rejected.",
     "technique": "Coq proof (stability-under-extension lemmas for tokenizer steps, induction on TLV lists and digit "
                  "strings, exact int64 digit-loop invariant) + regenerated constant tables + extracted-model "
                  "differential correspondence on all prefixes + independent strict reference decoder as oracle",
@@ -416,9 +422,10 @@ def ref_decode(inp):
         s, d = conv(tk[0]), conv(tk[1])
         if s is None or d is None:
             so, do = other(tk[0]), other(tk[1])
-            mapped = lambda a: a is not None and a[:12] == V4PFX
-            if (s is not None or so is not None) and (d is not None or do is not None) and not mapped(so) and not mapped(do) \
-               and not mapped(s) and not mapped(d):
+            # IPv6-syntax texts of v4-mapped addresses are left without a statement (Squid treats them as IPv4)
+            v6mapped = lambda t: ref_v6(t) is not None and ref_v6(t)[:12] == V4PFX
+            if (s is not None or so is not None) and (d is not None or do is not None) \
+               and not v6mapped(tk[0]) and not v6mapped(tk[1]):
                 return ("bad", "v1-family-mismatch")
             return None
         if not re.fullmatch(rb"[0-9]+", tk[2]) or int(tk[2]) > 65535:
@@ -598,7 +605,7 @@ def run(res, tier):
     try:
         std.run_standard(res, PID, tier, area="proxyp", build_impl=impl, gen_cases=gen_cases, oracle=oracle,
                          corr_name="ProxypModel vs src/proxyp/Parser.cc, src/proxyp/Header.cc, src/parser/BinaryTokenizer.cc",
-                         gens=["proxyp"], n_quick=24000, n_thorough=300000, seed_salt=38, mutate=mutate,
+                         gens=["proxyp"], n_quick=16000, n_thorough=240000, seed_salt=38, mutate=mutate,
                          kind_fn=lambda c, o: c.split()[0] + ":" + final_word(c, o),
                          nontrivial_fn=nontrivial)
     finally:
